@@ -5,10 +5,10 @@ CONSTANTS
   Spurious = FALSE
   EarlyQuit = FALSE
   MayIgnoreFlag = FALSE
-  Mutant = "nolastquit"
+  Mutant = "skipstops"
   MaxNodes = 3
   WithQuit = TRUE
-  WithErr = FALSE
-  WithSkip = FALSE
+  WithErr = TRUE
+  WithSkip = TRUE
 INVARIANT Safety
 PROPERTY Term
